@@ -12,7 +12,7 @@ from ..runner import ok, fail, discard, HarnessError, exception_signature
 PROP = 'C05'
 RULE = ('case = (design with several sequential leaves wired to each other - generated register netlists with feedback '
         'through logic, or a library design: UART serializer->deserializer loop, Reg2Axi->Axi2Reg pair, synchronous '
-        'memory with register address/data paths, an object-state FSM leaf (clock()+propagate()) enabling a counter - plus a schedule of input vectors held for n_i cycles, and k '
+        'memory with register address/data paths, an object-state FSM leaf (clock()+propagate()) enabling a counter, a checker leaf that calls stop() inside clock() with the run resumed afterwards - plus a schedule of input vectors held for n_i cycles, and k '
         'permutations (always including the reversal) of the order in which the simulator visits the sequential leaves). '
         'Non-trivial iff some sequential leaf S changes its output at an edge while another sequential leaf R reads S '
         '(directly or through logic) and S is visited before R in at least one explored permutation, i.e. an immediate '
@@ -146,6 +146,63 @@ def d_fsm(p):
     return s, [go, d]
 
 
+class Stopper(py4hw.Logic):
+    """a checker leaf that calls Simulator.stop() from inside clock() at chosen edges (the documented way to interrupt a
+    long clk(n) call from the design)"""
+
+    def __init__(self, parent, name, x, stops):
+        super().__init__(parent, name)
+        self.x = self.addIn('x', x)
+        self.stops = set(stops)
+        self.edges = 0
+        self.sim = None
+
+    def clock(self):
+        if self.edges in self.stops and self.sim is not None:
+            self.sim.stop()
+        self.edges += 1
+
+
+def run_stop(case):
+    """the chain design with a Stopper: a run that is interrupted by stop() and resumed must pass through the same states
+    as an uninterrupted run (the edge during which stop() is called is taken completely, like every edge)"""
+    tags = ['design:stop']
+    p = case.get('params', {})
+    res = []
+    for stops in (p.get('stops', []), []):
+        sysm, ins = d_chain(p)
+        seqv = [w_ for w_ in all_wires(sysm).values() if w_.name == 'seqv'][0]
+        st_ = Stopper(sysm, 'stopper', seqv, stops)
+        sim = sysm.getSimulator()
+        st_.sim = sim
+        trace = []
+        for vec, n in case['schedule']:
+            for w_, v in zip(ins, vec):
+                w_.put(v)
+            remaining = n
+            guard = 0
+            while remaining > 0:
+                before = sim.total_clks
+                sim.clk(remaining)
+                done = sim.total_clks - before
+                if done <= 0 or done > remaining:
+                    return fail('stop_resume|edge_count', 'clk({}) interrupted by stop() advanced total_clks by {}'.format(remaining, done), cls=tags)
+                remaining -= done
+                guard += 1
+                if guard > n + 2:
+                    raise HarnessError('no progress')
+            if py4hw.Wire.prepared:
+                return fail('prepared_not_cleared', 'Wire.prepared still holds {} after a clk call'.format(
+                    [w_.getFullPath() for w_ in py4hw.Wire.prepared][:4]), cls=tags)
+            trace.append(full_state(sysm))
+        res.append(trace)
+    if res[0] != res[1]:
+        return fail('stop_resume|state', first_diff(res[1], res[0]).replace('permuted order', 'interrupted and resumed run') +
+                    ' ; stops at edges {} schedule {}'.format(sorted(p.get('stops', [])), case['schedule'][:6]), cls=tags)
+    total = sum(n for _, n in case['schedule'])
+    return ok(any(e < total for e in p.get('stops', [])), tags)
+
+
 DESIGNS = {'uart': d_uart, 'axi': d_axi, 'mem': d_mem, 'chain': d_chain, 'fsm': d_fsm}
 
 
@@ -223,6 +280,8 @@ def cone_pairs(desc):
 
 
 def run_case(case):
+    if case.get('design') == 'stop':
+        return run_stop(case)
     perms = [{'reverse': False, 'seed': None}] + [{'reverse': True}] + [{'seed': s} for s in case.get('perm_seeds', [])]
     schedule = [(v, n) for v, n in case['schedule']]
     tags = []
@@ -339,7 +398,12 @@ def netlist_cases(draw, max_nodes):
 
 @st.composite
 def design_cases(draw):
-    name = draw(st.sampled_from(['uart', 'axi', 'mem', 'chain', 'chain', 'mem', 'fsm', 'fsm']))
+    name = draw(st.sampled_from(['uart', 'axi', 'mem', 'chain', 'chain', 'mem', 'fsm', 'fsm', 'stop']))
+    if name == 'stop':
+        steps = [[[draw(st.integers(0, 15))], draw(st.integers(1, 6))] for _ in range(draw(st.integers(2, 6)))]
+        total = sum(n for _, n in steps)
+        return {'kind': 'design', 'design': 'stop', 'schedule': steps, 'perm_seeds': [],
+                'params': {'len': draw(st.integers(2, 5)), 'stops': sorted(set(draw(st.lists(st.integers(0, total), min_size=1, max_size=4))))}}
     if name == 'uart':
         params = {'n': draw(st.integers(2, 4))}
         steps = []
